@@ -32,6 +32,9 @@ let show_ref (r : Records.ref_record) : string =
   | Records.RDel -> base ^ ":d"
   | Records.RVal h -> base ^ ":v:" ^ hex_of_bytes h
   | Records.RVal2 (h, t) -> base ^ ":w:" ^ hex_of_bytes h ^ ":" ^ hex_of_bytes t
+  (* a symbolic ref to the empty name (only hostile or foreign bytes hold one; the Go writer cannot emit it):
+     the Go API returns RefRecord{Target: ""}, which IS its representation of a deletion *)
+  | Records.RSym [] -> base ^ ":d"
   | Records.RSym t -> base ^ ":s:" ^ hex_of_bytes t
 
 let parse_log (s : string) : Records.log_record =
